@@ -118,6 +118,15 @@ namespace sim
 			req_len = find_request_len(m_client_in_buffer, m_num_client_in_bytes);
 		}
 
+		if (m_num_client_in_bytes == int(sizeof(m_client_in_buffer)))
+		{
+			// no complete request in a full buffer: a zero-size read would
+			// complete at once, for ever
+			std::printf("http_proxy::on_read_request: request too large\n");
+			close_connection();
+			return;
+		}
+
 		// read more from the client
 		m_client_connection.async_read_some(asio::buffer(
 			&m_client_in_buffer[m_num_client_in_bytes]
